@@ -11,6 +11,7 @@ package main
 //                datagram, followed by normal batches; datagrams decoded with thrift at the sink.
 
 import (
+	"bytes"
 	"errors"
 	"fmt"
 	"net"
@@ -236,6 +237,7 @@ type c15Case struct {
 	k       int
 	sinks   []*udpSink
 	single  *thriftudp.TUDPTransport
+	multiTr *thriftudp.TMultiUDPTransport
 	tr      c15Transport
 	profile string
 	// the harness' own bookkeeping of what the caller has seen (for generation and signatures only)
@@ -260,7 +262,7 @@ func (cs *c15Case) envs() string {
 		switch {
 		case !s.up:
 			out[i] = "down"
-		case cs.backdoor || s.wasDown || cs.deadline:
+		case (cs.backdoor && (!cs.multi || i == cs.victim)) || s.wasDown || cs.deadline:
 			out[i] = "sock"
 		default:
 			out[i] = "ok"
@@ -496,6 +498,29 @@ func (cs *c15Case) doFlush() {
 			cs.c.Cov.Hit("flush.icmp-error")
 		}
 	}
+	// model-independent, multi transport: whatever happens to the other destinations, one whose sink is up and whose
+	// socket nothing has happened to receives exactly this message, as one datagram ("the next message is transmitted
+	// complete, alone and uncorrupted"; every write and flush goes to every destination)
+	if cs.multi && cs.dup == nil && !cs.closed && !cs.dirty && !cs.prevDirty && len(cs.cur) > 0 && len(cs.cur) <= c15Max && !cs.failed {
+		envl := strings.Split(envs, ",")
+		for i := range recv {
+			if i >= len(envl) || envl[i] != "ok" {
+				continue
+			}
+			if len(recv[i]) == 0 {
+				recv[i] = cs.sinks[i].await(300 * time.Millisecond)
+			}
+			if len(recv[i]) != 1 || !bytes.Equal(recv[i][0], cs.cur) {
+				lens := make([]int, len(recv[i]))
+				for j, d := range recv[i] {
+					lens[j] = len(d)
+				}
+				cs.c.Cov.Fail(Failure{Kind: "violated", Clause: "delivered-exactly", Signature: "multi-healthy-destination-not-served", Line: "flush " + envs + " after " + strings.Join(cs.shape, ","),
+					Reply: fmt.Sprintf("destination %d of %d (sink up, socket untouched) should receive this message of %d bytes as one datagram; it received datagrams of lengths %v", i, cs.k, len(cs.cur), lens)})
+				break
+			}
+		}
+	}
 	cs.ask("flush", envs, -1, 0, err, recv)
 	cs.lastFlush = c15ErrClass(err)
 	if !cs.closed {
@@ -648,7 +673,13 @@ func (cs *c15Case) run() {
 			if r.Bool() { // in the middle of a message that nearly fills the buffer
 				cs.doWrite("write", cs.chunk(40000))
 			}
-			cs.single.Conn().Close()
+			if cs.multi {
+				// one destination's socket is closed behind the multi transport's back (verif-tagged accessor)
+				cs.multiTr.VerifConn(cs.victim).Close()
+				cs.c.Cov.Hit(fmt.Sprintf("fault.backdoor-multi.destination-%d-of-%d", cs.victim, cs.k))
+			} else {
+				cs.single.Conn().Close()
+			}
 			cs.backdoor = true
 			cs.faults["backdoor"] = true
 			cs.c.Cov.Hit("fault.backdoor")
@@ -772,7 +803,10 @@ func (cs *c15Case) run() {
 		return
 	}
 	// the end: sometimes close, and poke the closed transport
-	if !cs.closed && (cs.profile == "close" || r.Chance(30)) {
+	// (not after one destination of a MULTI transport was closed behind its back: that state is reachable only through
+	// the verif-tagged accessor, and Close on it - which stops at the first destination whose Close fails - is outside
+	// what C15 says about Close; the messages before it are judged as everywhere else)
+	if !cs.closed && (cs.profile == "close" || r.Chance(30)) && !(cs.multi && cs.backdoor) {
 		cs.doClose()
 	}
 	if cs.closed && !cs.failed {
@@ -806,8 +840,8 @@ func suiteC15(c *Ctx) {
 		cs.multi = r.Chance(35)
 		cs.k = 1
 		if cs.multi {
-			cs.k = []int{1, 2, 3, 3}[r.Intn(4)]
-			if cs.profile == "backdoor" || cs.profile == "deadline" { // the multi transport does not expose its connections
+			cs.k = []int{1, 2, 3, 3, 4}[r.Intn(5)]
+			if cs.profile == "deadline" { // the multi transport does not expose its connections (backdoor: through the verif-tagged accessor)
 				cs.profile = "sinkdown"
 			}
 		}
@@ -832,7 +866,7 @@ func suiteC15(c *Ctx) {
 			}
 			t, err := thriftudp.NewTMultiUDPClientTransport(hps, "")
 			must(err)
-			cs.tr = t
+			cs.tr, cs.multiTr = t, t
 			mode = "multi"
 		} else {
 			t, err := thriftudp.NewTUDPClientTransport(cs.sinks[0].hostPort(), "")
